@@ -38,6 +38,12 @@ let () =
           output_char oc '\n');
       close_in ic2;
       close_out oc
+  | [ _; "json"; inp; out ] ->
+      let oc = open_out out in
+      with_lines inp (fun line ->
+          output_string oc (p_codec (program (parse line)));
+          output_char oc '\n');
+      close_out oc
   | [ _; "reprint"; inp; out ] ->
       (* parse outputs and print them back: validates the output reader *)
       let oc = open_out out in
